@@ -20,6 +20,7 @@ enum Kind
     K_PARSETZERO,
     K_HOST_ICV,
     K_DELETE_OBJECT,
+    K_MERKLE_XCHECK, // bulk cross-backend agreement of the tree builders on one large input (plain flavour, thorough C08)
     K_NKINDS
 };
 const char *kind_name(int k);
